@@ -1,5 +1,5 @@
 #!/usr/bin/env python3
-"""Prints the markdown tables of DESIGN.md section 8 from /verif/seeded/*/meta.json (usage: seed_table.py r1|r2|r3)."""
+"""Prints the markdown tables of DESIGN.md section 8 from /verif/seeded/*/meta.json (usage: seed_table.py r1|r2|r3|r4; r4 adds the first-measurement column)."""
 import json
 import re
 import sys
@@ -10,7 +10,7 @@ rows = []
 for d in sorted((Path(__file__).resolve().parent.parent / 'seeded').iterdir()):
     if not (d / 'meta.json').exists() or not (d / 'patch.diff').exists():
         continue
-    tag = 'r3' if '-r3-' in d.name else 'r2' if '-r2-' in d.name else 'r1'
+    tag = 'r4' if '-r4-' in d.name else 'r3' if '-r3-' in d.name else 'r2' if '-r2-' in d.name else 'r1'
     if tag != rnd:
         continue
     m = json.loads((d / 'meta.json').read_text())
@@ -19,7 +19,14 @@ for d in sorted((Path(__file__).resolve().parent.parent / 'seeded').iterdir()):
         cb = f"behaviour-preserving since {m['now_twin']}: kept as a twin, silent"
     else:
         cb = '; '.join(f"{k} {'/'.join(v)}" for k, v in sorted(m['caught_by'].items())) or '**not caught**'
-    rows.append((d.name, m['property'], ', '.join(files), cb))
-print('| change | breaks | files | caught by (property rule) |\n|---|---|---|---|')
-for r in rows:
-    print(f'| {r[0]} | {r[1]} | {r[2]} | {r[3]} |')
+    fm = m.get('first_measurement')
+    first = ('; '.join(f"{k} {'/'.join(v)}" for k, v in sorted(fm['caught_by'].items())) or '**not caught**') if fm else None
+    rows.append((d.name, m['property'], ', '.join(files), cb, first))
+if any(r[4] is not None for r in rows):
+    print('| change | breaks | files | first measurement | after strengthening |\n|---|---|---|---|---|')
+    for r in rows:
+        print(f'| {r[0]} | {r[1]} | {r[2]} | {r[4]} | {r[3]} |')
+else:
+    print('| change | breaks | files | caught by (property rule) |\n|---|---|---|---|')
+    for r in rows:
+        print(f'| {r[0]} | {r[1]} | {r[2]} | {r[3]} |')
